@@ -199,6 +199,28 @@ func wrapIfContextError(err error) error {
 	return err
 }
 
+// wrapIfContextDone codes an uncoded error by the state of the call's context:
+// once the context has ended, a failing transport operation is the consequence
+// of that, whatever its error looks like. (net/http reports context.Cause(ctx),
+// which for contexts made with WithCancelCause or WithTimeoutCause does not wrap
+// context.Canceled or context.DeadlineExceeded.)
+func wrapIfContextDone(ctx context.Context, err error) error {
+	if err == nil {
+		return nil
+	}
+	if _, ok := asError(err); ok {
+		return err
+	}
+	ctxErr := ctx.Err()
+	if errors.Is(ctxErr, context.Canceled) {
+		return NewError(CodeCanceled, err)
+	}
+	if errors.Is(ctxErr, context.DeadlineExceeded) {
+		return NewError(CodeDeadlineExceeded, err)
+	}
+	return err
+}
+
 // wrapIfLikelyWithGRPCNotUsedError adds a wrapping error that has a message
 // telling the caller that they likely need to use h2c but are using a raw http.Client{}.
 //
